@@ -48,13 +48,6 @@ def gen_cases(rng, n):
     return cases
 
 
-def cut_instruction_boundaries(recs):
-    """byte offsets (per sink) of instruction boundaries, from the per-call byte counts of a TRACE"""
-    offs = {'G': [0], 'C': [0], 'P': [0]}
-    ph_before = None
-    return offs
-
-
 def run(tier, seed):
     R = C.Report(CID, tier, seed)
     rng = C.rng_for(seed, CID)
@@ -195,11 +188,10 @@ def run(tier, seed):
         if not good:
             oracle_fail.append((w['signature'], w['what'], dict(request=w['request'], expect=w['expect'], got=ans,
                                                                  corpus=os.path.basename(path))))
-        if exe:
-            mreq = w.get('model_request', w['request'])
-            mans = IC.run_model(exe, [mreq])[0]
+        if exe and w.get('model_request'):
+            mans = IC.run_model(exe, [w['model_request']])[0]
             if not mans.startswith(w.get('model_expect', w['expect'])):
-                mismatches.append(('corpus-model', mreq, mans[:300]))
+                mismatches.append(('corpus-model', w['model_request'], mans[:300]))
 
     # 4. verdict
     for sig, desc, replay in oracle_fail[:40]:
